@@ -255,23 +255,13 @@ theorem scanArgs_not_hang (ts cur : List PTok) (args : List (List PTok)) (depth 
     · exact ih _ _ _
 
 theorem readArgs_not_hang (m : Macro) (remaining : List PTok) : readArgs m remaining ≠ .error .hang := by
-  unfold readArgs
-  split
-  · cases hs : splitArgs m.name remaining with
-    | error e =>
-      simp only
-      intro h
-      cases h
-      unfold splitArgs at hs
-      split at hs
-      · exact scanArgs_not_hang _ _ _ _ hs
-      · cases hs
-    | ok ra =>
-      simp only
-      split
-      · split <;> simp
-      · split <;> simp
-  · simp
+  intro h
+  rcases RsslVerif.Lemmas.MacroTerm.readArgs_error m remaining _ h with h1 | hs
+  · cases h1
+  · unfold splitArgs at hs
+    split at hs
+    · exact scanArgs_not_hang _ _ _ _ hs
+    · cases hs
 
 theorem substitute_not_hang (body : List PTok) (args : List (List PTok)) :
     substitute body args ≠ .error .hang := by
